@@ -364,8 +364,13 @@ def run_property(pid, tier="quick", seed=0, only=None, verbose=False):
                 replayed = {"reproduced": False, "error": f"{type(err).__name__}: {err}"}
         if concrete is None and (replayed is None or not replayed.get("reproduced")):
             # a concrete failing input from the bounded stand-in of the same contract, if any
+            toks = set()
+            for src_txt in (getattr(c, "id", ""), getattr(c, "target", "").split("::")[-1]):
+                toks |= {t.lower() for t in re.split(r"[^A-Za-z0-9_]+", src_txt) if len(t) >= 5}
+                toks |= {t.lower().strip("_") for t in re.split(r"[^A-Za-z0-9_]+", src_txt.split(".")[-1]) if len(t.strip("_")) >= 5}
             for fl in bounded_failures:
-                if fl.get("contract") and fl["contract"] == getattr(c, "id", None):
+                text_fl = " ".join(str(fl.get(k, "")) for k in ("contract", "group", "key", "what")).lower()
+                if (fl.get("contract") and fl["contract"] == getattr(c, "id", None)) or any(t in text_fl for t in toks):
                     concrete = fl
                     break
         text = f"{r['name']} {r['descr']}"
